@@ -562,8 +562,8 @@ func (s *Stream) cleanup() {
 	s.mu.Lock()
 	defer s.mu.Unlock()
 	s.closed = true
-	s.msgAssembler = nil // Release the buffer
-	close(s.sendQueue)   // Close send channel
+	// the reassembly buffer belongs to the receive service, which may still be inside handlePacket(): it is released with the stream
+	close(s.sendQueue) // Close send channel
 }
 
 // IsSelf() returns if the peer address public key equals the self public key
